@@ -26,7 +26,15 @@ type Spec struct {
 
 // DFA constructs a deterministic finite automaton (DFA)
 // for recognizing all terminal symbols (tokens) in the grammar of the spec.
-func (s *Spec) DFA() (*auto.DFA, map[grammar.Terminal][]auto.State, error) {
+func (s *Spec) DFA() (_ *auto.DFA, _ map[grammar.Terminal][]auto.State, err error) {
+	// Combining the automata can panic inside the automata package: its queue fails when the breadth-first traversal
+	// of the combined automaton is down to a single state after a multiple of 64 states (e.g. one very long literal).
+	defer func() {
+		if r := recover(); r != nil {
+			err = fmt.Errorf("error on building the automaton for the terminal definitions: %v", r)
+		}
+	}()
+
 	errs := &errors.MultiError{
 		Format: errors.BulletErrorFormat,
 	}
